@@ -317,16 +317,18 @@ def _check_parser(ctx, mod):
             ok_e = resolver(g, {"self.response.code": v, "self.request.method": m, "self.NO_BODY_CODES": codes or set()})
             R = g.reach([g.entry], edge_ok=ok_e)
             label = q + f" | code={v} method={m.decode()}"
+            # feasibility takes local None-flags into account (`decoderFactory = None ... if decoderFactory is None:`), not only the guards on code / method
+            from sa.props._lib_f import flag_feasible_path
             if v in (204, 304) or m == b"HEAD":
-                w = g.path([g.entry], sbm, edge_ok=ok_e)
+                w = g.path([g.entry], sbm, edge_ok=ok_e) if flag_feasible_path(g, [g.entry], sbm, edge_ok=ok_e) else None
                 ctx.check(w is None, "parser/no-body-branch", label,
                           "a body decoder is installed for a response that cannot have a body (HEAD/204/304): the next response's bytes are taken as its body",
                           witness=g.describe(w))
-                w = g.path([g.entry], cb, avoid=zero, edge_ok=ok_e)
+                w = g.path([g.entry], cb, avoid=zero, edge_ok=ok_e) if flag_feasible_path(g, [g.entry], cb, avoid=zero, edge_ok=ok_e) else None
                 ctx.check(bool(zero) and w is None, "parser/no-body-branch", label + " | length", "response.length is not set to 0 for a body-less response",
                           witness=g.describe(w))
             else:
-                ctx.check(any(x in R for x in sbm), "parser/no-body-branch", label, "a response that has a body never gets a body decoder")
+                ctx.check(flag_feasible_path(g, [g.entry], sbm, edge_ok=ok_e), "parser/no-body-branch", label, "a response that has a body never gets a body decoder")
 
     # _finished: state = DONE before the finisher call-out
     f = ctx.func(P, "HTTPClientParser._finished")
@@ -1308,6 +1310,7 @@ def _client_evaluated(ctx):
 
 
 MUTANTS = [
+    Mutant("no-body-verdict-flag-read-the-wrong-way", P, "        if self.response.code in self.NO_BODY_CODES or self.request.method == b\"HEAD\":\n            self.response.length = 0\n", "        bodyless = None\n        if self.response.code in self.NO_BODY_CODES or self.request.method == b\"HEAD\":\n            bodyless = True\n        if bodyless is None:\n            self.response.length = 0\n", expect_rule="parser/no-body-branch"),
     Mutant("interim-reset-keeps-connection-headers", P, "            self.connectionMade()\n            del self.response\n",
            "            self.headers = Headers()\n            self.state = STATUS\n            self._partialHeader = None\n            del self.response\n",
            expect_rule="parser/interim-resets-message-state"),
@@ -1360,6 +1363,7 @@ MUTANTS = [
     Mutant("no-body-codes-drop-304", P, "    NO_BODY_CODES = {NO_CONTENT, NOT_MODIFIED}", "    NO_BODY_CODES = {NO_CONTENT}"),
 ]
 SILENT = [
+    Silent("no-body-verdict-carried-in-a-local-flag", P, "        if self.response.code in self.NO_BODY_CODES or self.request.method == b\"HEAD\":\n            self.response.length = 0\n", "        bodyless = None\n        if self.response.code in self.NO_BODY_CODES or self.request.method == b\"HEAD\":\n            bodyless = True\n        if bodyless is not None:\n            self.response.length = 0\n"),
     Silent("interim-reset-through-the-base-class", P, "            self.connectionMade()\n            del self.response\n", "            HTTPParser.connectionMade(self)\n            del self.response\n"),
     Silent("identity-decoder-remaining-length-by-subtraction", H, "            self.dataCallback = self.finishCallback = None\n            self.contentLength = 0\n\n            dataCallback(data[:contentLength])",
            "            self.dataCallback = self.finishCallback = None\n            self.contentLength -= contentLength\n\n            dataCallback(data[:contentLength])"),
